@@ -48,8 +48,9 @@ class Files:
 
     def _pair(self, stem, lines):
         p = {"plain": os.path.join(self.d, stem + ".gaf"), "bgzf": os.path.join(self.d, stem + ".gaf.gz")}
-        write_lines(p["plain"], lines)
-        write_lines(p["bgzf"], lines, bgzf=True)
+        eol = self.data.get("eol", "\n")
+        write_lines(p["plain"], lines, eol=eol)
+        write_lines(p["bgzf"], lines, bgzf=True, eol=eol)
         return p
 
     @property
@@ -284,12 +285,18 @@ def run(ctx):
     ctx.bound("large data sets: %s; each over a random rGFA (5-6 reference segments of length 1-6 per chromosome, 1-2 bubbles, optional "
               "inversion, 1-2 chromosomes, random BO/NO tags)" % "; ".join("%d records = %d bytes of GAF text = %d BGZF blocks" % s for s in sizes))
     ctx.bound("%d small data sets of 1-40 records (single BGZF block); every record has 0-5 random optional fields over the whole tag grammar "
-              "(+ a long Z field in the large sets), walks of <= 4 steps, any (start,end)" % n_small)
+              "(+ a long Z field in the large sets), walks of <= 4 steps, any (start,end); every fifth set with CR LF line ends, every fifth with a UTF-8 Z value" % n_small)
     ctx.bound("per data set 24 command variants (+ view -n for every single node in small sets): view x2, view -f x2, index x2, view -n/-r/-n -f x6, "
               "sort x2 (plain / --bgzip output), stat x2, realign, phase x2, find_path x3, order_gfa x2; each under all 2 (GAF) x 2 (graph) "
               "configurations that apply; reference = plain GAF + plain GFA")
     for i in range(n_small):
         data = make_data(rng, rng.choice([1, 2, 3, 5, 8, 13, 25, 40]), n_chrom=rng.choice([1, 2]))
+        # text whose character count differs from its byte count, and CR LF line ends: the plain file is read in text mode, the BGZF file as
+        # bytes (added after seeded change C17-3)
+        if i % 5 == 1:
+            data["eol"] = "\r\n"
+        elif i % 5 == 3:
+            data["gaf"] = [l + "\tco:Z:caf\u00e9 \u2713 %d" % k for k, l in enumerate(data["gaf"])]
         did = data_id(data)
         F = Files(ctx.dir("small"), data)
         for cmd, var in variants(rng, data, False):
